@@ -979,6 +979,20 @@ CTX_DEV_STMTS: Dict[str, Tuple[str, str, str, str]] = {
 }
 
 
+# list manipulations for the same product (C09: memory safety / heap balance)
+CTX_LIST_STMTS: Dict[str, Tuple[str, str, str, str]] = {
+    "append": CTX_STMTS["append"],
+    "remove_dup": CTX_STMTS["remove_dup"],
+    "self_append": CTX_STMTS["self_append"],
+    "self_append_last": ("xs = [4, 5]\n", "xs.append(xs[1])\nxs.remove(xs[0])\n", "mon.write(xs[0])\nmon.write(xs[1])\n", ""),
+    "list_swap": CTX_STMTS["list_swap"],
+    "list_rotate3": ("p = [1, 2]\nq = [3, 4]\nr = [5, 6]\n", "p, q, r = q, r, p\n", "mon.write(p[0])\nmon.write(q[1])\nmon.write(r[0])\n", "g:p,q,r"),
+    "swap_then_append": ("p = [1, 2]\nq = [3, 4]\n", "p, q = q, p\np.append(a)\np.remove(p[0])\n", "mon.write(p[0])\nmon.write(q[1])\n", "g:p,q"),
+    "append_from_other": ("xs = [1, 2]\nys = [7, 8]\n", "xs.append(ys[0])\nxs.remove(xs[0])\n", "mon.write(xs[1])\n", ""),
+    "remove_then_index": ("xs = [2, 5, 2, 8]\n", "xs.remove(5)\nxs.append(5)\n", "mon.write(xs[2])\nmon.write(xs[3])\n", ""),
+}
+
+
 def _fill(template: str, block: str) -> str:
     out = template
     for k in range(4):
